@@ -33,7 +33,7 @@ Section TransferProofs.
   Hypothesis Ps_ext : forall a b, (forall y, a y = b y) -> forall x, Ps a x = Ps b x.
 
   Notation sumf := (sumf kO kadd).
-  Notation np := 1.
+  Variable np : nat.                            (* number of right-hand-side parts (1: generic_implicit/explicit, 2: IMEX) *)
   Notation restrict := (restrict kO kadd kmul ksub Mf Mc dtf dtc t0 nodes_c Qf Qc np feval_c Rs Rcoll).
   Notation resid_f := (residual_vec kO kadd kmul ksub Mf dtf Qf np).
   Notation resid_c := (residual_vec kO kadd kmul ksub Mc dtc Qc np).
@@ -133,6 +133,37 @@ Section TransferProofs.
     apply sumf_ext. intros m _. unfold vscale. rewrite Ps_sub. reflexivity.
   Qed.
 
+End TransferProofs.
+
+Section TwoLevelCycle.
+  Context {K : Type} (kO kI : K) (kadd kmul ksub : K -> K -> K) (kopp : K -> K) (keqb : K -> K -> bool).
+  Hypothesis Rth : ring_theory kO kI kadd kmul ksub kopp (@eq K).
+  Add Ring Kring3b : Rth.
+  Hypothesis keqb_true : forall a b, keqb a b = true -> a = b.
+  Context {Xf Xc : Type}.
+  Notation Vf := (Xf -> K).
+  Notation Vc := (Xc -> K).
+  Local Infix "+!" := kadd (at level 50, left associativity).
+  Local Infix "*!" := kmul (at level 40, left associativity).
+  Local Infix "-!" := ksub (at level 50, left associativity).
+  Variable Mf Mc : nat.
+  Variable dtf dtc t0 : K.
+  Variable nodes_c : nat -> K.
+  Variable Qf Qc : nat -> nat -> K.
+  Variable feval_c : K -> Vc -> nat -> Vc.
+  Variable Rs : Vf -> Vc.
+  Variable Ps : Vc -> Vf.
+  Variable Rcoll Pcoll : nat -> nat -> K.
+  Hypothesis Rs_add : forall a b x, Rs (vadd kadd a b) x = Rs a x +! Rs b x.
+  Hypothesis Rs_sub : forall a b x, Rs (vsub ksub a b) x = Rs a x -! Rs b x.
+  Hypothesis Rs_zero : forall x, Rs (vzero kO) x = kO.
+  Hypothesis Ps_sub : forall a b x, Ps (vsub ksub a b) x = Ps a x -! Ps b x.
+  Hypothesis Ps_ext : forall a b, (forall y, a y = b y) -> forall x, Ps a x = Ps b x.
+  Notation sumf := (sumf kO kadd).
+  Notation restrict := (restrict kO kadd kmul ksub Mf Mc dtf dtc t0 nodes_c Qf Qc 1 feval_c Rs Rcoll).
+  Notation resid_f := (residual_vec kO kadd kmul ksub Mf dtf Qf 1).
+  Notation resid_c := (residual_vec kO kadd kmul ksub Mc dtc Qc 1).
+
   (* ---------------------------------------------------------------- two-level cycle *)
   Variable solve_c : nat -> Vc -> K -> Vc -> K -> Vc.
   Variable QIc : nat -> nat -> K.
@@ -152,12 +183,13 @@ Section TransferProofs.
     forall n x, prolong_u kadd kmul ksub Mc Ps Pcoll G' Fu n x = Fu n x.
   Proof.
     intros Htau Hzero Rs_ext Hrow Hli Hext Htri Hdec G r G' n x.
-    apply prolong_zero_correction. intros m Hm y. cbn [Gu Guold G'].
+    apply (prolong_zero_correction kO kI kadd kmul ksub kopp Rth Mc Ps Pcoll Ps_sub Ps_ext). intros m Hm y. cbn [Gu Guold G'].
     (* the coarse state after restriction satisfies its collocation problem ... *)
     assert (Hcoll : collocation1 kO kadd kmul Mc dtc Qc (Gu G) (Gf G) (Gtau G)).
     { intros k Hk z.
       apply (proj1 (residual_zero_iff_collocation kO kI kadd kmul ksub kopp Rth Mc dtc Qc (Gu G) (Gf G) (Gtau G) k z)).
-      apply (restricted_solution_has_zero_coarse_defect Fu Ff Ftau Htau Hzero Rs_ext k Hk (Hrow k Hk)). }
+      apply (restricted_solution_has_zero_coarse_defect kO kI kadd kmul ksub kopp Rth Mf Mc dtf dtc t0 nodes_c Qf Qc feval_c Rs Rcoll
+               Rs_add Rs_sub Rs_zero 1 Fu Ff Ftau Htau Hzero Rs_ext k Hk (Hrow k Hk)). }
     (* ... and is consistent by construction, so the sweep reproduces it *)
     assert (Hcons : consistent kadd kmul Mc dtc t0 nodes_c feval_c (Gu G) (Gf G)).
     { intros k Hk p z. unfold G, Transfer.restrict. cbn [Gu Gf].
@@ -167,4 +199,4 @@ Section TransferProofs.
                solve_c feval_c QIc (Gu G) (Gf G) (Gtau G) Hli Hext Htri Hcons Hdec Hcoll m Hm y).
     unfold G, Transfer.restrict. cbn [Gu Guold]. reflexivity.
   Qed.
-End TransferProofs.
+End TwoLevelCycle.
